@@ -110,7 +110,7 @@ func failureAborts(p *Program, f *ssa.Function, call ssa.CallInstruction, forbid
 		return false, "the call's error result is discarded"
 	}
 	var from []engine.Point
-	for _, b := range f.Blocks {
+	for _, b := range engine.BlocksInl(f) {
 		for i := range b.Succs {
 			if l, ok := engine.EdgeLit(b, i); ok {
 				if v, isNil, ok := l.NilTest(); ok && !isNil && engine.SameValue(v, ev) {
@@ -186,7 +186,7 @@ func r09_3(r *Report, p *Program, e *syncEntry) {
 		sinksByFn[s.Fn] = append(sinksByFn[s.Fn], s)
 	}
 	n := 0
-	for _, b := range f.Blocks {
+	for _, b := range engine.BlocksInl(f) {
 		for _, in := range b.Instrs {
 			ci, ok := in.(ssa.CallInstruction)
 			if !ok || in == mc {
@@ -252,7 +252,7 @@ func r09_4(r *Report, p *Program) {
 			continue
 		}
 		ok, why := true, ""
-		for _, b := range fn2.Blocks {
+		for _, b := range engine.BlocksInl(fn2) {
 			for _, in := range b.Instrs {
 				switch x := in.(type) {
 				case ssa.CallInstruction:
@@ -387,7 +387,7 @@ func r09_5(r *Report, p *Program) {
 	r.Check(rule, FK(f)+"[latest-wins]", p.Pos(f.Pos()), ok, "claim ⇔ still desired ∧ not yet claimed", why)
 	// what is persisted: the element appended to the children list carries the filtered names
 	var names ssa.Value
-	for _, b := range f.Blocks {
+	for _, b := range engine.BlocksInl(f) {
 		for _, in := range b.Instrs {
 			if ms, isMS := in.(*ssa.MakeSlice); isMS && ms.Type().String() == "[]string" {
 				names = ms
@@ -397,7 +397,7 @@ func r09_5(r *Report, p *Program) {
 	okP, whyP := names != nil, "no filtered name list is built"
 	if okP {
 		okP, whyP = false, "the ControllerRevisionChildren entries that are kept still carry their original Names: the filtered list (duplicates and no-longer-desired names dropped) is computed but never stored, so a stale duplicate claim is persisted and later overrides the latest revision's desired state for that child"
-		for _, b := range f.Blocks {
+		for _, b := range engine.BlocksInl(f) {
 			for _, in := range b.Instrs {
 				c, isC := in.(*ssa.Call)
 				if !isC || !isCallTo(in, "builtin.append") || !strings.Contains(c.Type().String(), "ControllerRevisionChildren") {
@@ -412,7 +412,7 @@ func r09_5(r *Report, p *Program) {
 	r.Check(rule, FK(f)+"[filtered-names-persisted]", p.Pos(f.Pos()), okP, "kept entries carry the filtered Names", whyP)
 	// pr.revision.Children is replaced by the rebuilt list
 	okS := false
-	for _, b := range f.Blocks {
+	for _, b := range engine.BlocksInl(f) {
 		for _, in := range b.Instrs {
 			if st, isS := in.(*ssa.Store); isS && strings.HasSuffix(E(st.Addr), ".revision.Children") && strings.Contains(E(st.Val), "append") {
 				okS = true
